@@ -24,5 +24,6 @@ def run(rep, tier, seed):
     rep.level = "exploration"
     rep.assume("A1", "A2", "A4", "A5", "A6", "A7", "A8")
     D.run_contracts(rep, "C09", D.FIT, tier, with_lemmas=False)
+    D.run_static(rep, "C09", ("purity",))      # every per-call contract presupposes that results are functions of the arguments
     t3(rep, tier, seed)
     D.link_falsifier(rep)
